@@ -305,6 +305,8 @@ pub fn step(w: &mut World, op: &Op) -> Result<(), Fail> {
             let slot = (0..SLOTS).find(|s| w.root(m, *s).is_none()).expect("burst with no empty root slot");
             let tmp = crate::vm::MAX_ROOTS - 1;
             for i in 0..count as usize {
+                // size 1 = a mixed-size burst: small, line-spanning and medium objects interleaved
+                let size = if size == 1 { [40u32, 264, 40, 520, 2048, 40, 264, 1032][i % 8] } else { size };
                 let r = w.alloc_obj(m, tmp, size as usize, 2, 8, Sem::Default, false)?;
                 let Some(id) = r else {
                     return Err(("alloc:null".into(), format!("alloc(size={}) returned null in a heap with plenty of room", size)));
